@@ -334,7 +334,7 @@ func (g *pg) expr(ty Ty, d int, sc scope) val.V {
 	if d <= 0 || g.budget <= 0 {
 		return g.leaf(ty, sc)
 	}
-	if g.f.Try && ((g.inTry > 0 && g.chance("throwpt", 14)) || g.chance("throwtop", 90)) {
+	if g.f.Try && ((g.inTry > 0 && g.chance("throwpt", 14)) || g.chance("throwtop", 300)) {
 		return g.throwPoint(d, sc)
 	}
 	if len(g.macros) > 0 && g.chance("macrocall", 7) {
